@@ -130,6 +130,90 @@ fn persistent_phase(seed: u64, arenas: u64, threads: usize, len: usize, max_live
     (rounds, mismatches, detail)
 }
 
+/// One LARGE arena (tens of thousands of nodes) walked by all threads at the same moment (they start behind a
+/// barrier): long walks are where anything a walk keeps outside its own iterator (a process-wide step budget,
+/// a cache keyed by position) is shared between the threads for long enough to show.
+fn big_phase(seed: u64, nodes: usize, threads: usize, reps: usize) -> (u64, u64, String) {
+    use indextree::Arena;
+    use ixv::rng::{Digest, Rng};
+    let mut rng = Rng::derive(seed, 182, nodes as u64);
+    let mut a: Arena<Plain> = Arena::with_capacity(rng.below(nodes + 1));
+    let mut ids = Vec::with_capacity(nodes);
+    let root = a.new_node(Plain { tid: 1, val: 0 });
+    ids.push(root);
+    for i in 1..nodes {
+        let n = a.new_node(Plain { tid: 1 + i as u64, val: rng.below(1000) as u64 });
+        // recent parents make it deep, early parents make it wide
+        let p = if rng.chance(1, 2) { ids[ids.len() - 1 - rng.below(ids.len().min(6))] } else { ids[rng.below(ids.len())] };
+        if rng.chance(3, 4) {
+            p.append(n, &mut a);
+        } else {
+            p.prepend(n, &mut a);
+        }
+        ids.push(n);
+    }
+    // some holes, so that slots and positions differ
+    for _ in 0..nodes / 50 {
+        let v = ids[1 + rng.below(ids.len() - 1)];
+        if !v.is_removed(&a) {
+            v.remove(&mut a);
+        }
+    }
+    let a = &a;
+    let walk = |salt: u64| -> Digest {
+        let mut d = Digest::default();
+        let mut r = Rng::new(salt);
+        for x in root.descendants(a) { d.u(usize::from(x) as u64) }
+        d.u(1 << 41);
+        if salt != 0 && r.chance(1, 3) { std::thread::yield_now(); }
+        for e in root.traverse(a) { d.s(&format!("{:?}", e)) }
+        d.u(2 << 41);
+        for e in root.reverse_traverse(a) { d.s(&format!("{:?}", e)) }
+        d.u(3 << 41);
+        d.s(&format!("{}", root.debug_pretty_print(a)));
+        d.u(4 << 41);
+        d.u(root.descendants(a).count() as u64);
+        d.u(root.traverse(a).filter(|e| matches!(e, indextree::NodeEdge::End(_))).count() as u64);
+        let mut deepest = (0usize, root);
+        for n in a.iter().filter(|n| !n.is_removed()).step_by(97) {
+            let id = a.get_node_id(n).unwrap();
+            let depth = id.ancestors(a).count();
+            if depth > deepest.0 { deepest = (depth, id) }
+            d.u(depth as u64);
+            d.u(id.children(a).count() as u64);
+            d.u(id.following_siblings(a).count() as u64);
+            d.u(id.descendants(a).take(5000).count() as u64);
+        }
+        for x in deepest.1.ancestors(a) { d.u(usize::from(x) as u64) }
+        d
+    };
+    let base = match ixv::exec::guarded(|| walk(0)) {
+        Ok(d) => d,
+        Err(p) => return (0, 1, format!("large arena ({} nodes): the single-threaded walk panicked: {}", nodes, p)),
+    };
+    let mut runs = 0u64;
+    let mut mism = 0u64;
+    let mut detail = String::new();
+    for rep in 0..reps {
+        let barrier = std::sync::Barrier::new(threads);
+        let res: Vec<Result<Digest, String>> = std::thread::scope(|s| {
+            let hs: Vec<_> = (0..threads).map(|t| { let barrier = &barrier; let walk = &walk; s.spawn(move || { barrier.wait(); ixv::exec::guarded(|| walk(seed ^ ((rep as u64) << 8) ^ (t as u64 + 1))) }) }).collect();
+            hs.into_iter().map(|h| h.join().unwrap()).collect()
+        });
+        for (t, r) in res.into_iter().enumerate() {
+            runs += 1;
+            let bad = match &r { Ok(d) => *d != base, Err(_) => true };
+            if bad {
+                mism += 1;
+                if detail.is_empty() {
+                    detail = format!("large arena ({} nodes), {} threads walking it at once, rep {} thread {}: {}", nodes, threads, rep, t, match r { Ok(d) => format!("digest {} != single-thread digest {}", d.hex(), base.hex()), Err(p) => format!("reader panicked: {}", p.chars().take(160).collect::<String>()) });
+                }
+            }
+        }
+    }
+    (runs, mism, detail)
+}
+
 fn main() {
     let args: Vec<String> = std::env::args().collect();
     let seed: u64 = arg(&args, "--seed").and_then(|s| s.parse().ok()).unwrap_or(1);
@@ -244,11 +328,21 @@ fn main() {
     if first_detail.is_empty() {
         first_detail = p_detail;
     }
+    let big: usize = arg(&args, "--big").and_then(|s| s.parse().ok()).unwrap_or(0);
+    let mut big_runs = 0u64;
+    if big > 0 {
+        let (r, m, d) = big_phase(seed, big, threads, reps);
+        big_runs = r;
+        mismatches += m;
+        if first_detail.is_empty() {
+            first_detail = d;
+        }
+    }
     if mismatches > 0 {
         println!("READERS-FINDING {}", first_detail);
     }
     println!(
-        "{{\"arenas\":{},\"reader_runs\":{},\"threads\":{},\"distinct_interleaving_signatures\":{},\"distinct_arena_shapes\":{},\"live_nodes_total\":{},\"par_iter_comparisons\":{},\"reads_by_long_lived_threads_after_in_place_edits\":{},\"mismatches\":{}}}",
+        "{{\"arenas\":{},\"reader_runs\":{},\"threads\":{},\"distinct_interleaving_signatures\":{},\"distinct_arena_shapes\":{},\"live_nodes_total\":{},\"par_iter_comparisons\":{},\"reads_by_long_lived_threads_after_in_place_edits\":{},\"simultaneous_walks_of_one_large_arena\":{},\"large_arena_nodes\":{},\"mismatches\":{}}}",
         arenas,
         reads,
         threads,
@@ -257,6 +351,8 @@ fn main() {
         nodes_total,
         par_cmp,
         p_rounds,
+        big_runs,
+        big,
         mismatches
     );
     if mismatches > 0 {
